@@ -2,7 +2,8 @@ check("C03", "translation_validation",
       "For every run of the shared worker run that ends in Success (TLC-emitted module sets and token sequences, valid corpus and its import "
       "closures also for the wasm target, mutants that still compile, nesting shapes, generated 2-3-module sets) the IR text of every module and "
       "of the linked program is given to llvm-as and opt -passes=verify as independent tools; TLC validates the recording with `ir` events "
-      "after every generate/link: both tools accept and the extracted define/declare table satisfies Symbols.tla.",
+      "after every generate/link: both tools accept and the extracted define/declare table satisfies Symbols.tla (a function that is neither pub nor main "
+      "may carry any symbol name of its own: `.fn.NAME`)." "Structured cells (PipelineShapes.tla, MC_PipelineWide.tla): every builtin x 0-3 arguments x argument kind x 6 contexts x one / two / three modules x wasm, nesting at 126-129 in 18 reference and 9 type constructs (verdict E390 from docs/errors.md), exact source sizes up to 65 536 bytes, symbol-table shapes (flags x kind of definition x placement), names shared between modules, sets of 4-6 modules in 8 import topologies x fault placement x position of main.",
       "IR validity itself is decided by LLVM 14's assembler and verifier (the property's own definition); the specification decides the "
       "definedness/linkage clause and that the observation is made for every accepted program. Local (non-pub, non-main) functions of the "
       "linked program are unconstrained (LLVM's linker drops unreferenced locals). Programs are never executed.",
